@@ -114,12 +114,24 @@ def run_case(ctx, case):
         if side.ex.ret_mismatch:
             ctx.fail(case, f"{where}: {side.ex.ret_mismatch[0]}")
             return ctx.case(case, nontrivial)
-        for addr in refs[app].shared_arrays:
-            try:
-                shm._get_array(addr)
-            except Exception:
-                ctx.fail(case, f"{where}: returned array @{addr} not visible in the host's shared memory")
-                return ctx.case(case, nontrivial)
+        # Between returns the host's copy of a returned array is either the snapshot taken by ret_arr or (in-process shared
+        # memory, which the SDK relies on across subroutines) the returned list itself, i.e. it follows later stores to THAT
+        # array until the address is re-declared.  Anything else - e.g. wiped by a later `array` - is not prescribed by any
+        # instruction.  Checked for every application after every subroutine, fault or not.
+        for a in range(len(refs)):
+            shm_a = SharedMemoryManager.get_shared_memory("node", a)
+            for addr, snap in refs[a].shared_arrays.items():
+                ctx.count("host_arrays_compared")
+                try:
+                    host = list(shm_a._get_array(addr))
+                except Exception:
+                    ctx.fail(case, f"{where}: returned array @{addr} of app {a} not visible in the host's shared memory")
+                    return ctx.case(case, nontrivial)
+                alias = list(refs[a].shared_alias[addr])
+                if host != snap and host != alias:
+                    ctx.fail(case, f"{where}: after {r_out} the host reads {host} from @{addr} of app {a}; the last ret_arr returned "
+                                   f"{snap} and the returned array now holds {alias}")
+                    return ctx.case(case, nontrivial)
         # no partial effect on the physical-qubit bookkeeping either: ids marked in use == ids mapped
         ex = side.ex
         mapped = sorted(p for um in ex._qubit_unit_modules.values() for p in um if p is not None)
